@@ -625,6 +625,47 @@ Proof.
     rewrite Hc. rewrite (IH (c :: cur) Ht). cbn [rev]. rewrite <- app_assoc. reflexivity.
 Qed.
 
+Definition pre (x : chars) (o : option (chars * chars)) : option (chars * chars) :=
+  match o with Some (a, b) => Some (x ++ a, b) | None => None end.
+
+Lemma split_step c s : Ascii.eqb cr c = false -> split_at_crlf2 (c :: s) = pre [c] (split_at_crlf2 s).
+Proof.
+  intros H. cbn [split_at_crlf2]. unfold crlf. cbn [app strip_prefix]. rewrite H.
+  destruct (split_at_crlf2 s) as [[a b] |]; reflexivity.
+Qed.
+
+Lemma split_skip_line l c rest :
+  not_c cr l = true -> Ascii.eqb cr c = false ->
+  split_at_crlf2 (l ++ crlf ++ c :: rest) = pre (l ++ crlf) (split_at_crlf2 (c :: rest)).
+Proof.
+  unfold not_c. intros Hl Hc. induction l as [| x l IH].
+  - cbn [app]. unfold crlf. cbn [app].
+    assert (E1 : split_at_crlf2 (cr :: nl :: c :: rest) = pre [cr] (split_at_crlf2 (nl :: c :: rest))).
+    { cbn [split_at_crlf2]. unfold crlf. cbn [app strip_prefix].
+      change (Ascii.eqb cr cr) with true. change (Ascii.eqb nl nl) with true. cbv iota. rewrite Hc.
+      destruct (split_at_crlf2 (nl :: c :: rest)) as [[a b] |]; reflexivity. }
+    rewrite E1. rewrite (split_step nl (c :: rest) eq_refl).
+    destruct (split_at_crlf2 (c :: rest)) as [[a b] |]; reflexivity.
+  - cbn [forallb] in Hl. apply andb_true_iff in Hl. destruct Hl as [Hx Hl]. apply negb_true_iff in Hx.
+    cbn [app]. rewrite split_step by (rewrite Ascii.eqb_sym; exact Hx). rewrite (IH Hl).
+    destruct (split_at_crlf2 (c :: rest)) as [[a b] |]; reflexivity.
+Qed.
+
+Lemma split_crlf_line l rest : forall cur,
+  not_c nl l = true ->
+  split_crlf (l ++ crlf ++ rest) cur = (rev cur ++ l) :: split_crlf rest [].
+Proof.
+  unfold not_c. induction l as [| x l IH]; intros cur Hl.
+  - cbn [app]. unfold crlf. cbn [app split_crlf].
+    change (Ascii.eqb cr nl) with false. change (Ascii.eqb nl nl) with true. cbv iota.
+    change (Ascii.eqb cr cr) with true. cbv iota. rewrite app_nil_r. reflexivity.
+  - cbn [forallb] in Hl. apply andb_true_iff in Hl. destruct Hl as [Hx Hl]. apply negb_true_iff in Hx.
+    cbn [app split_crlf]. rewrite Hx. rewrite (IH (x :: cur) Hl). cbn [rev]. rewrite <- app_assoc.
+    reflexivity.
+Qed.
+
+(** The response head parses, and the Content-Length value is the decimal
+    length of the body - for EVERY body. *)
 Theorem content_length_ok : forall b,
   parse_http (http_of b) =
     Some (mkHttp (s2c "HTTP/1.1 200 OK")
@@ -634,20 +675,35 @@ Proof.
   intros b. unfold parse_http, http_of.
   set (n := print_int (Z.of_nat (length b))).
   destruct (print_int_no_cr_nl (Z.of_nat (length b))) as [NC NN]. fold n in NC, NN.
-  (* head: the two fixed header lines, then "content-length: " ++ digits *)
-  assert (E : s2c "HTTP/1.1 200 OK" ++ crlf ++ s2c "content-type: text/plain" ++ crlf ++
-              s2c "content-length: " ++ n ++ crlf ++ crlf ++ b
-              = s2c "HTTP/1.1 200 OK" ++ crlf ++ s2c "content-type: text/plain" ++ crlf ++
-                (s2c "content-length: " ++ n) ++ crlf ++ crlf ++ b).
-  { rewrite <- !app_assoc. reflexivity. }
+  set (L1 := s2c "HTTP/1.1 200 OK"). set (L2 := s2c "content-type: text/plain").
+  set (L3 := s2c "content-length: " ++ n).
+  assert (E : L1 ++ crlf ++ L2 ++ crlf ++ s2c "content-length: " ++ n ++ crlf ++ crlf ++ b
+              = L1 ++ crlf ++ L2 ++ crlf ++ L3 ++ crlf ++ crlf ++ b).
+  { unfold L3. rewrite <- !app_assoc. reflexivity. }
   rewrite E. clear E.
-  assert (S : split_at_crlf2 ((s2c "content-length: " ++ n) ++ crlf ++ crlf ++ b)
-              = Some (s2c "content-length: " ++ n, b)).
-  { apply split_at_crlf2_nocr. rewrite not_c_app, NC. reflexivity. }
-  cbn [s2c list_ascii_of_string app split_at_crlf2 strip_prefix crlf Ascii.eqb Bool.eqb andb].
-  change (s2c "content-length: ") with (list_ascii_of_string "content-length: ") in S.
-  cbn [list_ascii_of_string app] in S. cbn [crlf app] in S. rewrite S.
-  cbn [split_crlf Ascii.eqb Bool.eqb andb rev app].
-  rewrite (split_crlf_tail n _ NN). cbn [rev app map parse_header split_on Ascii.eqb Bool.eqb andb all_some].
-  reflexivity.
+  assert (C1 : not_c cr L1 = true) by reflexivity.
+  assert (C2 : not_c cr L2 = true) by reflexivity.
+  assert (C3 : not_c cr L3 = true) by (unfold L3; rewrite not_c_app, NC; reflexivity).
+  assert (N1 : not_c nl L1 = true) by reflexivity.
+  assert (N2 : not_c nl L2 = true) by reflexivity.
+  assert (N3 : not_c nl L3 = true) by (unfold L3; rewrite not_c_app, NN; reflexivity).
+  assert (S : split_at_crlf2 (L1 ++ crlf ++ L2 ++ crlf ++ L3 ++ crlf ++ crlf ++ b)
+              = Some (L1 ++ crlf ++ L2 ++ crlf ++ L3, b)).
+  { change (L2 ++ crlf ++ L3 ++ crlf ++ crlf ++ b)
+      with ("c" :: (tl L2 ++ crlf ++ L3 ++ crlf ++ crlf ++ b)).
+    rewrite (split_skip_line L1 "c" _ C1 eq_refl).
+    change ("c" :: (tl L2 ++ crlf ++ L3 ++ crlf ++ crlf ++ b))
+      with (L2 ++ crlf ++ "c" :: (tl L3 ++ crlf ++ crlf ++ b)).
+    rewrite (split_skip_line L2 "c" _ C2 eq_refl).
+    change ("c" :: (tl L3 ++ crlf ++ crlf ++ b)) with (L3 ++ crlf ++ crlf ++ b).
+    rewrite (split_at_crlf2_nocr L3 b C3). unfold pre. rewrite <- !app_assoc. reflexivity. }
+  rewrite S.
+  rewrite (split_crlf_line L1 _ [] N1), (split_crlf_line L2 _ [] N2), (split_crlf_tail L3 [] N3).
+  cbn [rev app map].
+  assert (H2 : parse_header L2 = Some (s2c "content-type", s2c "text/plain")) by reflexivity.
+  assert (H3 : parse_header L3 = Some (s2c "content-length", n)).
+  { unfold L3, parse_header.
+    change (s2c "content-length: " ++ n) with (s2c "content-length" ++ ":" :: " " :: n).
+    rewrite (split_on_app ":" (s2c "content-length") (" " :: n) eq_refl). reflexivity. }
+  rewrite H2, H3. reflexivity.
 Qed.
